@@ -31,7 +31,7 @@ LEAVES = [
 ]
 # a reduced catalogue for the big three-slot products
 LEAVES_SMALL = [('a',), ('$',), ('\xe9',), ('a\u0301',), ('1',), ('1.',), ('.5',), ("'s'",),
-                ('/r/',), ('/=/',), ('this',), ('(', 'a', ')'), ('[', ']'),
+                ('/r/',), ('/r/g',), ('/=/',), ('this',), ('(', 'a', ')'), ('[', ']'),
                 ('{', '}')]
 
 PROPNAMES = [('p',), ('if',), ('get',), ("'p'",), ('"p"',), ('1',), ('.5',),
